@@ -270,3 +270,32 @@ ANY_HASHER(harness_any_xxhash32, wuffs_xxhash32__hasher, wuffs_xxhash32__hasher_
            wuffs_xxhash32__hasher__update_u32, wuffs_xxhash32__hasher__checksum_u32, uint32_t)
 ANY_HASHER(harness_any_xxhash64, wuffs_xxhash64__hasher, wuffs_xxhash64__hasher__initialize, wuffs_xxhash64__hasher__update,
            wuffs_xxhash64__hasher__update_u64, wuffs_xxhash64__hasher__checksum_u64, uint64_t)
+
+// ---- iterate loops with overlapping windows over slices of every length ----
+// The slices end exactly at the end of their objects, so a stop offset that is too large shows
+// up as an out-of-bounds access. The sums are compared with the documented iteration scheme.
+#define SCAN_MAX 12
+void harness_any_scan(void) {
+  uint8_t smem[SCAN_MAX], tmem[SCAN_MAX];
+  for (int i = 0; i < SCAN_MAX; i++) {
+    smem[i] = nondet_u8();
+    tmem[i] = nondet_u8();
+  }
+  uint64_t n = nondet_u64(), m = nondet_u64();
+  verif_assume(n <= (uint64_t)verif_param("N") && m <= (uint64_t)verif_param("N"));
+  n = verif_conc(n);
+  m = verif_conc(m);
+  uint8_t* s = smem + (SCAN_MAX - n);
+  uint8_t* t = tmem + (SCAN_MAX - m);
+  uint32_t total = 0, count = 0;
+  uint64_t i = 0;
+  for (; n - i >= 4; i += 3) total += (uint32_t)s[i] | ((uint32_t)s[i + 1] << 8) | ((uint32_t)s[i + 2] << 16) | ((uint32_t)s[i + 3] << 24);
+  for (; n - i >= 3; i += 3) count += (uint32_t)s[i] | ((uint32_t)s[i + 1] << 8) | ((uint32_t)s[i + 2] << 16);
+  wuffs_demo__parser p;
+  verif_check(wuffs_demo__parser__initialize(&p, sizeof p, WUFFS_VERSION, 0).repr == NULL, "any/init");
+  wuffs_demo__parser__scan(&p, wuffs_base__make_slice_u8(s, n), wuffs_base__make_slice_u8(t, m));
+  verif_check(p.private_impl.f_total == total, "scan/overlapping-windows-sum");
+  verif_check(p.private_impl.f_acc == 0, "scan/nothing-left-for-the-second-overlapping-loop");
+  verif_check(p.private_impl.f_count == count, "scan/tail-sum");
+  verif_reach("any/done");
+}
